@@ -113,7 +113,7 @@ FAMILIES = [
 
 def plan(prop, tier, seed):
     specs = []
-    n, steps = (28, 700) if tier == "quick" else (320, 1500)
+    n, steps = (16, 450) if tier == "quick" else (320, 1500)
     for i in range(n):
         specs.append({"kind": "random", "seed": run_seed(seed, prop, tier, i), "steps": steps, "want_sample": i < 2})
     # guided layer: polluter x victim spec pairs per ISA; quick = a seeded slice
@@ -121,7 +121,7 @@ def plan(prop, tier, seed):
     for name in ISAS:
         parts = 1 if tier == "quick" else 6
         for p in range(parts):
-            specs.append({"kind": "pairs", "isa": name, "part": p, "parts": parts, "budget": 1500 if tier == "quick" else 6000, "seed": run_seed(seed, prop, tier + "-pairs", k)})
+            specs.append({"kind": "pairs", "isa": name, "part": p, "parts": parts, "budget": 400 if tier == "quick" else 6000, "seed": run_seed(seed, prop, tier + "-pairs", k)})
             k += 1
     return specs
 
@@ -225,26 +225,21 @@ def compare_obs(first, now):
 
 
 def _reference(req):
-    """pristine world: only the dependency chain of one observation"""
-    from .. import isa as I
-    from amoco.cas.mapper import mapper
-
+    """pristine world: only the dependency chain of one observation, executed
+    with the same step discipline (listed sites undone at step end) as the
+    interleaved world, so that the two differ by the history only"""
     if req.get("trace") is not None:
         return _run_trace_for_ref(req)
-    cpu = I.LOADED[req["isa"]]
-    try:
-        instrs = decode_block(cpu, req["ins"], req["addr"])
-    except Exception as e:
-        return {"decode": ["exc", type(e).__name__]}
-    if instrs is None:
-        return {"decode": None}
-    res = {"decode": decode_fp(instrs)}
-    try:
-        m = mapper(instrs)
-    except Exception as e:
-        res["map"] = ["exc", type(e).__name__]
-        return res
-    res["obs"] = {str(s): observe_map(m, s) for s in req["salts"]}
+    W = World({"known_keys": req.get("known_keys", [])}, None, confirm=True)
+    W.step({"op": "block", "id": "b", "isa": req["isa"], "ins": req["ins"], "addr": req["addr"], "client": 0})
+    blk = W.blocks.get("b")
+    res = {"decode": blk["fp"] if blk else None}
+    W.step({"op": "map", "id": "m", "block": "b", "client": 0})
+    W.step({"op": "eval", "map": "m", "salts": req["salts"], "client": 0})
+    obs = {}
+    for key, (o, stp, cl) in W.first.items():
+        obs[str(key[-1])] = o
+    res["obs"] = obs
     return res
 
 
@@ -374,7 +369,7 @@ class World(object):
             return None
         self.refd.add(k)
         self.ref_budget -= 1
-        ref = self.refsrv.query({"isa": blk["isa"], "ins": blk["ins"], "addr": blk["addr"], "salts": sorted(obs_by_salt)})
+        ref = self.refsrv.query({"isa": blk["isa"], "ins": blk["ins"], "addr": blk["addr"], "salts": sorted(obs_by_salt), "known_keys": sorted(self.known)})
         self.st.hit("probe:pristine-compared")
         if ref.get("decode") != dec_fp:
             return {"class": "decode-differs-from-pristine-process", "detail": {"block": blk["ins"], "pristine": ref.get("decode"), "here": dec_fp}}
@@ -619,6 +614,10 @@ class Gen(object):
         for _ in range(r.choice([1, 1, 2, 3, 4])):
             s = r.choice(S)
             b = self.I.encode(s, r, endian=en if s.size != 0 else 1, tail=6 if s.size == 0 else 0, template=self.template, flip=0.3)
+            if name.endswith(("cpu_x86", "cpu_x64")) and r.random() < 0.35:
+                # legacy prefixes select other operand / address sizes and segment forms
+                pfx = bytes(r.choice([0x66, 0x67, 0x67, 0xF2, 0xF3, 0x2E, 0x64]) for _ in range(r.choice([1, 1, 2])))
+                b = pfx + b
             ins.append(b.hex())
         bid = self.newid("b")
         c["blocks"].append(bid)
@@ -792,8 +791,12 @@ def run_pairs(spec):
         for pk in idx:
             p, v = S[pk // n], S[pk % n]
             T = rng.getrandbits(128)
-            bp = I.encode(p, rng, endian=en if p.size != 0 else 1, tail=6 if p.size == 0 else 0, template=T, flip=0.0).hex()
-            bv = I.encode(v, rng, endian=en if v.size != 0 else 1, tail=6 if v.size == 0 else 0, template=T, flip=0.0).hex()
+            bp = I.encode(p, rng, endian=en if p.size != 0 else 1, tail=6 if p.size == 0 else 0, template=T, flip=0.0)
+            bv = I.encode(v, rng, endian=en if v.size != 0 else 1, tail=6 if v.size == 0 else 0, template=T, flip=0.0)
+            if name.endswith(("cpu_x86", "cpu_x64")) and rng.random() < 0.3:
+                pf = bytes([rng.choice([0x66, 0x67, 0x67])])
+                bp, bv = pf + bp, pf + bv
+            bp, bv = bp.hex(), bv.hex()
             nid[0] += 1
             k = nid[0]
             ops = [
